@@ -363,7 +363,15 @@ def c18(seed, n, inproc=2):
             stats['expansions_compared'] += 1
             named = set(c.traits)
             a, b = outcome(sub[i]), outcome(full[i])
-            if named <= set(F):
+            partners_present = all(q in F for t in named for q in PARTNERS.get(t, []))
+            if named <= set(F) and not partners_present:
+                # the property compares with the all-features build "given the same coupled partners are
+                # present": e.g. Ord reads the PartialOrd *feature* for its `Self: PartialOrd` predicate
+                # (C18_same_code states exactly this side condition)
+                stats['partner_feature_absent'] += 1
+                if a[0] != b[0]:
+                    fails.append(dict(key='c18:code:' + k1lib_hash(c.rust()), what='with features [%s] the request is %s but %s in the all-features build' % (' '.join(F), a[0], b[0]), input=c.rust(), features=F))
+            elif named <= set(F):
                 if (a[0], a[2]) != (b[0], b[2]):
                     fails.append(dict(key='c18:code:' + k1lib_hash(c.rust()), what='with features [%s] the expansion differs from the all-features build' % ' '.join(F), input=c.rust(), features=F))
             else:
